@@ -99,7 +99,10 @@ class C06(LoopSpec):
             return [mkjob("R1", 4, True), mkjob("R2", 4, True, sym_shutdown=True), mkjob("R3", 4, False), mkjob("R4", 4, True), mkjob("R6", 3, True),
                     mkjob("R1", 3, True, with_feedbacks=True), mkjob("R3", 3, False, with_feedbacks=True),
                     mkjob("R2", 3, True, fms=True, faults=1, fault_patterns=["first", "always"],
-                          fault_sites=["c1.on_disable", "c1.on_enable", "c2.on_disable", "c2.on_enable"])]
+                          fault_sites=["c1.on_disable", "c1.on_enable", "c2.on_disable", "c2.on_enable"]),
+                    # a mode's own init hook fails (FMS): the mode is still entered and left like any other
+                    mkjob("R1", 3, True, fms=True, faults=1, fault_patterns=["first", "always"],
+                          fault_sites=["robot.autonomousInit", "robot.teleopInit", "robot.disabledInit", "robot.testInit", "auto.on_enable"])]
         return [mkjob("R1", 6, True), mkjob("R2", 5, True, sym_shutdown=True), mkjob("R3", 6, False),
                 mkjob("R2", 4, True, raw_words=True), mkjob("R1", 3, True, change_at_dispatch=True), mkjob("R4", 5, True), mkjob("R6", 4, True),
                 mkjob("R2", 4, True, fms=True, faults=2, fault_patterns=["first", "always"],
@@ -141,6 +144,8 @@ class C07(LoopSpec):
                     mkjob("R1", 3, True, fms="per-refresh", faults=1, fault_patterns=["always"]),
                     # faults that are not Exception subclasses (SystemExit-like) are user-callback exceptions too
                     mkjob("R2", 3, True, fms="sym", faults=1, fault_patterns=["first"], fault_kind="base"),
+                    # a hook that is a C-implemented callable and raises (its traceback has no frame of its own)
+                    mkjob("R1", 3, True, fms=True, c_raiser="c1.on_enable"), mkjob("R1", 2, True, fms=True, c_raiser="c1.on_disable"),
                     # two faulty sites without the FMS: the first exception ends the program, nothing else of the user's runs
                     mkjob("R1", 2, True, fms=False, faults=2, fault_patterns=["always"],
                           fault_sites=["auto.on_iteration", "c1.execute", "robot.teleopPeriodic", "c1.on_disable", "c2.on_disable", "auto.on_disable"]),
@@ -157,7 +162,7 @@ class C07(LoopSpec):
 
     def reach_required(self, tier):
         return ["fault-swallowed", "fault-propagated", "no-fault-fired", "iteration-auto", "iteration-teleop",
-                "percall-all-swallowed", "percall-propagated-after-swallowed"]
+                "percall-all-swallowed", "percall-propagated-after-swallowed", "c-level-raiser"]
 
     def path_fn(self, c, job):
         H = lcm.run_robot(c, job)
@@ -166,6 +171,12 @@ class C07(LoopSpec):
         if not raised:
             c.reach("no-fault-fired")
             c.prove("C07.run no-exception-without-fault", H.outcome[0] == "normal", info=dict(outcome=str(H.outcome)))
+            if job["cfg"].get("c_raiser"):
+                c.reach("c-level-raiser")
+                c.prove("C07.fms swallowed-robot-keeps-running", H.outcome[0] == "normal", info=dict(outcome=str(H.outcome)[:200], site=job["cfg"]["c_raiser"]))
+                if H.outcome[0] == "normal":
+                    lc.clauses_structure(c, H, "C07", timing=False, lifecycle=True, order=True)
+                    lc.clauses_liveness(c, H, "C07")
             return
         first_site = raised[0][1]
         if job["cfg"].get("fms") == "per-refresh":
